@@ -10,6 +10,7 @@ import (
 	"sort"
 	"strings"
 	"testing"
+	"unicode/utf8"
 
 	"github.com/Syuparn/pangaea/object"
 	"pgregory.net/rapid"
@@ -108,6 +109,23 @@ func judgeHistoryRaw(h []string) (sig, detail string, ok int) {
 		for _, n := range roots() {
 			v, _ := env.Get(object.GetSymHash(n))
 			tr.Walk(v, n, visited, rep)
+			// a string is more than its Go field: what indexing, iteration and length say about it must agree with its text
+			if sv, isStr := v.(*object.PanStr); isStr && len(sv.Value) > 0 && len(sv.Value) < 200 && utf8.ValidString(sv.Value) && sv.Proto() == object.BuiltInStrObj && s == "" {
+				o := in.Run(fmt.Sprintf("[%s.A.join(\"\"), %s[::-1][::-1], %s@{|ch| ch}.join(\"\")]", n, n, n), interp.Opts{Env: object.NewEnclosedEnv(env)})
+				same := true
+				if arr, isArr := o.Obj.(*object.PanArr); o.Kind == interp.Value && isArr {
+					for _, e := range arr.Elems {
+						if es, isS := e.(*object.PanStr); !isS || es.Value != sv.Value {
+							same = false
+						}
+					}
+				}
+				if !same {
+					s = "changed:str-characters"
+					d = fmt.Sprintf("after statement %d `%s` the string %s = %q no longer consists of its own characters: [A.join, [::-1][::-1], chain.join] = %s\nhistory:\n  %s",
+						step+1, stmt, n, sv.Value, interp.SafeInspect(o.Obj), strings.Join(h[:step+1], "\n  "))
+				}
+			}
 		}
 		for _, n := range bnames {
 			tr.Walk(builtins[n], n, visited, rep)
@@ -217,6 +235,7 @@ func cyclic(o object.PanObject) bool {
 func isObjVal(o object.PanObject) bool  { _, ok := o.(*object.PanObj); return ok }
 func isArrVal(o object.PanObject) bool  { _, ok := o.(*object.PanArr); return ok }
 func isMapVal(o object.PanObject) bool  { _, ok := o.(*object.PanMap); return ok }
+func isStrVal(o object.PanObject) bool  { _, ok := o.(*object.PanStr); return ok }
 func isFuncVal(o object.PanObject) bool { _, ok := o.(*object.PanFunc); return ok }
 func isIterVal(o object.PanObject) bool {
 	switch o.(type) {
@@ -313,11 +332,13 @@ func (g *histGen) step(i int) {
 		sibling = true
 	case k < 15 && k >= 13:
 		// operands of one kind: equality and membership between stored containers, calls of stored functions
-		kind := rapid.SampledFrom([]func(object.PanObject) bool{isMapVal, isMapVal, isArrVal, isObjVal, isFuncVal, isFuncVal}).Draw(g.t, "kind")
+		kind := rapid.SampledFrom([]func(object.PanObject) bool{isMapVal, isMapVal, isArrVal, isObjVal, isFuncVal, isFuncVal, isStrVal}).Draw(g.t, "kind")
 		a, b := g.pickKind("a", kind), g.pickKind("b", kind)
 		rhs = rapid.SampledFrom([]string{"%[1]s == %[2]s", "%[2]s == %[1]s", "%[1]s == %[1]s", "[%[1]s] == [%[2]s]", "[%[1]s, 1].has?(%[2]s)", "%[1]s != %[2]s", "{k: %[1]s} == {k: %[2]s}", "%%{1: %[1]s} == %%{1: %[2]s}",
+			"(%[1]s:%[1]s._incBy(3)).A", "%[1]s._incBy(1)", "(%[1]s:nil).first", "%[1]s[::-1]", "%[1]s.rev",
+			"%[1]s.digest([[[NN], NN]])", "%%{**%[1]s, **%%{[NN]: NN}}", "%[1]s.digest([[{n: NN}, NN], [[NN, NN], 1]])", "%%{**%[1]s, **%%{{n: NN}: 1}, **%[2]s}",
 			"%[1]s(%[3]s)", "%[1]s(%[3]s, k: %[3]s)", "%[1]s(%[3]s).kwargs", "%[1]s.kwargs", "%[1]s(%[3]s)(1)", "[%[1]s(1), %[1]s(2)]", "%[1]s(1).new(0).next", "%[1]s(%[3]s).m"}).Draw(g.t, "form")
-		rhs = fmt.Sprintf(rhs, a, b, g.pick("arg"))
+		rhs = strings.ReplaceAll(fmt.Sprintf(rhs, a, b, g.pick("arg")), "NN", fmt.Sprint(40+g.intn(50, "fresh key")))
 		if k := strings.Index(rhs, "%!("); k >= 0 {
 			rhs = rhs[:k]
 		}
